@@ -71,8 +71,8 @@ def cdef(name, base=None, model=True, pkg=True, ns=..., mname=None, tns=None, mo
     }
 
 
-def fdef(name, kind="element", mname=None, ns=None, cls=None):
-    return {"name": name, "kind": kind, "mname": mname, "ns": ns, "cls": cls}
+def fdef(name, kind="element", mname=None, ns=None, cls=None, wrapper=None):
+    return {"name": name, "kind": kind, "mname": mname, "ns": ns, "cls": cls, "wrapper": wrapper}
 
 
 class Realm:
@@ -161,6 +161,8 @@ class Realm:
                 md["name"] = f["mname"]
             if f["ns"] is not None:
                 md["namespace"] = f["ns"]
+            if f.get("wrapper") is not None:
+                md["wrapper"] = f["wrapper"]
             ns["__annotations__"][f["name"]] = tp
             ns[f["name"]] = dataclasses.field(default=None, metadata=md)
         if d["bad"]:
@@ -223,14 +225,17 @@ class Realm:
         return {
             "cls": self.cid(m.clazz), "qname": m.qname, "ns": m.namespace, "tq": m.target_qname,
             "vars": [
-                [v.index, v.name, v.local_name, v.qname, sorted(v.namespaces), self.var_kind(v), self.cid(v.clazz)]
+                [v.index, v.name, v.local_name, v.qname, sorted(v.namespaces), self.var_kind(v), self.cid(v.clazz), v.wrapper]
                 for v in m.get_all_vars()
             ],
         }
 
     def state(self, ctx):
         return {
-            "cache": [[self.cid(c), m.qname, m.namespace] for c, m in ctx.cache.items()],
+            # keys are (class, parent_ns) since the repair of C14-F1; a bare class key
+            # (older code) is exported with parent_ns "?" so that the difference shows
+            "cache": [[self.cid(k[0]), k[1], m.qname, m.namespace] if isinstance(k, tuple)
+                      else [self.cid(k), "?", m.qname, m.namespace] for k, m in ctx.cache.items()],
             "xsi": [[k, [self.cid(c) for c in l]] for k, l in ctx.xsi_cache.items()],
             "stamp": 0 if ctx.sys_modules == 0 else ctx.sys_modules - self.base + 1,
         }
